@@ -359,7 +359,8 @@ func (p *Project) WithProfiles(profiles []string) (*Project, error) {
 	}
 	newProject.Services = enabled
 	newProject.DisabledServices = disabled
-	newProject.Profiles = profiles
+	// the result keeps its own list: the caller may have passed p.Profiles itself
+	newProject.Profiles = append(profiles[:0:0], profiles...)
 	return newProject, nil
 }
 
